@@ -481,3 +481,28 @@ fn from_data() {
 
     assert_eq!(table, table2);
 }
+
+/// Verification hooks (read-only views and pass-through).
+#[cfg(zstd_rs_verif)]
+#[allow(dead_code)]
+pub mod verif {
+    use super::{HuffmanEncoder, HuffmanTable};
+    use crate::bit_io::BitWriter;
+    use alloc::vec::Vec;
+
+    /// (code, number of bits) per symbol
+    pub fn codes(t: &HuffmanTable) -> Vec<(u32, u8)> {
+        t.codes.clone()
+    }
+    /// optional table description followed by one or four streams, exactly as the literals encoder writes them
+    pub fn encode(t: &HuffmanTable, data: &[u8], with_table: bool, four_streams: bool) -> Vec<u8> {
+        let mut writer = BitWriter::new();
+        let mut enc = HuffmanEncoder::new(t, &mut writer);
+        if four_streams {
+            enc.encode4x(data, with_table);
+        } else {
+            enc.encode(data, with_table);
+        }
+        writer.dump()
+    }
+}
